@@ -78,18 +78,25 @@ def gen_prows(r, pspace, allow_unused=True):
     return pspace, [[GG.q(r.uniform(0, 1)) for _ in pspace] for _ in range(k)]
 
 
-def gen_filter(r, rng, dom, prow):
-    """A half-space filter that keeps roughly 30-70 % of the domain."""
+def gen_filter(r, rng, dom, prows_tab):
+    """A half-space filter that keeps 50-85 % of the domain at *every* parameter row
+    (the library gives up, as documented, after 20 rounds without a valid point)."""
     try:
         sp = G.space(dom)
         v, d = sp[0]
         base = dom
         while base["k"] in ("bnd",):
             base = base["d"]
-        pts = G.uniform_sample(base, prow, 200, rng)
         ax = r.randrange(d)
-        c = float(np.quantile(pts[v][:, ax], r.uniform(0.3, 0.7)))
-        return {"var": v, "axis": ax, "op": r.choice(("gt", "lt")), "c": GG.q(c)}
+        op = r.choice(("gt", "lt"))
+        samples = [G.uniform_sample(base, prow, 200, rng)[v][:, ax] for prow in prows_tab]
+        qq = r.uniform(0.15, 0.5)
+        c = GG.q(float(np.quantile(samples[0], qq if op == "gt" else 1 - qq)))
+        for smp in samples:
+            acc = float(np.mean(smp > c if op == "gt" else smp < c))
+            if not 0.5 <= acc <= 0.9:
+                return None
+        return {"var": v, "axis": ax, "op": op, "c": c}
     except Exception:
         return None
 
@@ -113,17 +120,23 @@ def gen_entry(r, rng, dom, pspace, prows):
         if cls == "Grid" and is_prod:
             cls = "RandomUniform"
         e = {"kind": "sampler", "cls": cls}
-    use_d = density_ok and r.random() < 0.2 and e.get("cls") not in ("Gaussian", "LHS")
-    if use_d and not (is_prod and dep):
+    # excluded cells (DESIGN.md 8.2): adaptive samplers with a density (the point count of
+    # rejection-based shapes/filters is random, the samplers raise IndexError -- loud);
+    # dependent products with a density (int(d*volume) may be 0 -> raises, volume is a
+    # documented 10-point estimate)
+    use_d = density_ok and r.random() < 0.2 and e.get("cls") not in (
+        "Gaussian", "LHS", "AdaptiveThreshold", "AdaptiveRandom")
+    if use_d and not is_prod:
         e["d"] = r.choice((0.5, 2.0, 7.5, 20.0, 55.0))
     else:
         e["n"] = pick_n(r, big=(r.random() < 0.2))
     if e["kind"] == "sampler":
-        prow = {v: [prows[0][i]] for i, (v, _) in enumerate(pspace)} if prows else {}
-        prow = {v: val for v, val in prow.items() if v in G.free_vars(dom)}
+        fv = G.free_vars(dom)
+        tabs = [{v: [row[i]] for i, (v, _) in enumerate(pspace) if v in fv} for row in prows] or [{}]
+        prow = tabs[0]
         if e["cls"] in ("RandomUniform", "Grid", "AdaptiveThreshold", "AdaptiveRandom") \
-                and r.random() < 0.25 and not is_prod and not G.free_vars(dom) - set(prow):
-            f = gen_filter(r, rng, dom, prow)
+                and r.random() < 0.25 and not is_prod and not fv - set(prow):
+            f = gen_filter(r, rng, dom, tabs)
             if f:
                 e["filter"] = f
         if e["cls"] == "Gaussian":
